@@ -35,6 +35,7 @@ GENERATORS = [
     ('gen_py_attrname', 'PyAttrName.lean'),
     ('gen_py_anb', 'PyAnB.lean'),
     ('gen_py_api', 'PyApi.lean'),
+    ('gen_py_textfn', 'PyTextFn.lean'),
 ]
 
 
